@@ -126,6 +126,7 @@ func runScenario(sc scenario) {
 	if sc.SmallQ {
 		opts.WriteQueueSize = 8
 	}
+	var refusePause atomic.Bool
 	var (
 		t1, t2   *rig.Traffic // hop 1 (publisher -> server), hop 2 / topology A (server stream -> readers)
 		ingest   *rig.Reader
@@ -159,6 +160,12 @@ func runScenario(sc scenario) {
 		ingest = rig.NewReader("server-ingest", sc.PubProto == "tcp", 5)
 		// handler overrides are installed before the server starts
 		opts.PreStart = func(ts *rig.TestServer) {
+			ts.Core.Pause = func(_ *gortsplib.ServerHandlerOnPauseCtx) (*base.Response, error) {
+				if refusePause.Load() {
+					return &base.Response{StatusCode: base.StatusMethodNotValidInThisState}, nil
+				}
+				return &base.Response{StatusCode: base.StatusOK}, nil
+			}
 			ts.Core.Announce = func(ctx *gortsplib.ServerHandlerOnAnnounceCtx) (*base.Response, error) {
 				st := &gortsplib.ServerStream{Server: ts.S, Desc: ctx.Description}
 				if err := st.Initialize(); err != nil {
@@ -215,6 +222,14 @@ func runScenario(sc scenario) {
 			fail("publisher-start-failed", err.Error(), nil)
 			return
 		}
+		// a PAUSE that the application refuses: the publisher stays in RECORD and whatever it writes
+		// afterwards must still arrive (nothing is written while the request is in flight)
+		refusePause.Store(true)
+		if _, err := pub.C.Pause(); err == nil {
+			fail("publisher-pause-not-refused", "the refused PAUSE of the publisher returned no error", nil)
+		}
+		refusePause.Store(false)
+		run.Count("publisher-pauses-refused-before-load", 1)
 		ingest.WindowOpen()
 	}
 
